@@ -628,9 +628,11 @@ def dict_resolver(env):
                 and not getattr(fn, "__ptera_discard__", False)
             ]
             if not funcs:  # pragma: no cover
-                raise Exception(f"Reference `{x}` cannot be resolved.")
+                raise CodeNotFoundError(
+                    f"Reference `{x}` cannot be resolved."
+                )
             elif len(funcs) > 1:  # pragma: no cover
-                raise Exception(f"Reference `{x}` is ambiguous.")
+                raise CodeNotFoundError(f"Reference `{x}` is ambiguous.")
             (curr,) = funcs
 
         elif x.startswith("@"):
